@@ -5,8 +5,8 @@
   D3 the copy into the chunk is bounded by the size that was allocated
 Non-overlap / reuse over histories, coalescing completeness, region growth: NOT decided.
 """
-from facts import AnalysisBroken, access_path, strip_casts, unparse
-from flow import Facts
+from facts import Locals, AnalysisBroken, access_path, strip_casts, unparse
+from flow import single_defs, Facts
 from symexec import Heap, Lin
 from rules_common import where
 
@@ -60,15 +60,23 @@ def d1(db, rep, split_rule="D1-SPLIT", merge_rule="D1-MERGE"):
                   "split breaks the tiling identity `%s` (post-state: %s)" % (name, {k: repr(v) for k, v in F.items()}))
 
     # ---- D1 merge ------------------------------------------------------------
-    h = Heap()
+    if len(mg.params) != 1:
+        raise AnalysisBroken("orc_code_chunk_merge: expected one parameter")
+    C = mg.params[0]["name"]
+    h = Heap({C: fields})
     h.run([mg.body])
+    opaque = [x for x in h.log if x[0] == "opaque"]
+    if opaque:
+        raise AnalysisBroken("orc_code_chunk_merge contains statements the symbolic evaluator cannot interpret: %s" % opaque[:3])
     F = h.fields
-    c2 = h.vars.get("chunk2")
-    c2sym = c2.single() if c2 is not None else None
-    if c2sym != "chunk.next@0":
-        raise AnalysisBroken("orc_code_chunk_merge: chunk2 is not chunk->next (%s)" % c2)
+    # the chunk that is merged away: the local holding chunk->next
+    c2names = [nm for nm, v in h.vars.items() if v is not None and v.single() == "%s.next@0" % C]
+    if len(c2names) != 1:
+        raise AnalysisBroken("orc_code_chunk_merge: no single local holds %s->next (%s)" % (C, c2names))
+    c2name = c2names[0]
+    c2sym = "%s.next@0" % C
     obligations = [
-        ("c'.size == c.size + c2.size", F.get((C, "size")) == Lin.sym("chunk.size@0") + Lin.sym("%s.size@0" % c2sym)),
+        ("c'.size == c.size + c2.size", F.get((C, "size")) == Lin.sym("%s.size@0" % C) + Lin.sym("%s.size@0" % c2sym)),
         ("c'.next == c2.next", F.get((C, "next")) == Lin.sym("%s.next@0" % c2sym)),
         ("c'.offset unchanged", (C, "offset") not in F),
     ]
@@ -81,7 +89,7 @@ def d1(db, rep, split_rule="D1-SPLIT", merge_rule="D1-MERGE"):
     last_use_ok = True
     if fr:
         for n in mg.walk():
-            if n.k == "DeclRefExpr" and n.name == "chunk2" and n.line > fr[0].line:
+            if n.k == "DeclRefExpr" and n.name == c2name and n.line > fr[0].line:
                 last_use_ok = False
     obligations.append(("no use of c2 after free", last_use_ok))
     for name, ok in obligations:
@@ -91,17 +99,22 @@ def d1(db, rep, split_rule="D1-SPLIT", merge_rule="D1-MERGE"):
     cf = db.func("orc_code_chunk_free", "orccodemem")
     rep.saw(cf)
     fc = Facts(cf)
+    P = cf.params[0]["name"]
     for c in cf.calls("orc_code_chunk_merge"):
         arg = unparse(c.args()[0])
         conds = [(unparse(x[0]), x[1]) for x in fc.conds(c) if x[0] != "switch"]
-        if arg == "chunk":
-            need = [("chunk->next", True), ("chunk->next->used", False)]
+        if arg == P:
+            need = [("%s->next" % P, True), ("%s->next->used" % P, False)]
+            inst = "merge(chunk)-guard"
+        elif arg == "%s->prev" % P:
+            need = [("%s->prev" % P, True), ("%s->prev->used" % P, False)]
+            inst = "merge(chunk->prev)-guard"
         else:
-            need = [("chunk->prev", True), ("chunk->prev->used", False)]
-        ok = all(n_ in conds for n_ in need)
-        rep.check(ok, merge_rule, where(cf), "merge(%s)-guard" % arg, "merge only with an existing, unused neighbour (%s)" % need,
+            need, inst = None, "merge(?)-guard"
+        ok = need is not None and all(n_ in conds for n_ in need)
+        rep.check(ok, merge_rule, where(cf), inst, "merge only with an existing, unused neighbour (%s)" % need,
                   "orc_code_chunk_free merges %s without establishing %s (facts: %s)" % (arg, need, conds), line=c.line)
-    used_clear = [n for n in cf.walk() if n.k == "BinaryOperator" and n.op == "=" and access_path(n.c[0]) == "chunk->used" and strip_casts(n.c[1]).v == 0]
+    used_clear = [n for n in cf.walk() if n.k == "BinaryOperator" and n.op == "=" and access_path(n.c[0]) == "%s->used" % P and strip_casts(n.c[1]).v == 0]
     rep.check(bool(used_clear), merge_rule, where(cf), "chunk->used=FALSE", "freed chunk is marked unused", "orc_code_chunk_free no longer marks the chunk unused")
 
 
@@ -122,46 +135,81 @@ def run(ctx):
     # ---- D2 ------------------------------------------------------------------
     al = db.func("orc_code_allocate_codemem", "orccodemem")
     rep.saw(al)
+    L = Locals(al)
+    CODE, SIZE = L.param(0), L.param(1)
+    CH = L.one("OrcCodeChunk *", "the chunk being handed out")
     stores = {}
     for n in al.walk():
-        if n.k == "BinaryOperator" and n.op == "=" and (access_path(n.c[0]) or "").startswith("code->"):
-            stores[access_path(n.c[0])] = n
-    if "code->code" not in stores or "code->exec" not in stores:
+        if n.k == "BinaryOperator" and n.op == "=" and (access_path(n.c[0]) or "").startswith(CODE + "->"):
+            stores[access_path(n.c[0])[len(CODE) + 2:]] = n
+    if "code" not in stores or "exec" not in stores:
         raise AnalysisBroken("orc_code_allocate_codemem no longer stores code->code / code->exec")
+    sd = single_defs(al)
+
+    def resolved(e):
+        """text of e with single-definition locals replaced by their definitions."""
+        e = strip_casts(e)
+        for _ in range(3):
+            if e is not None and e.k == "DeclRefExpr" and e.name in sd and strip_casts(sd[e.name]) is not None and strip_casts(sd[e.name]).k != "CallExpr":
+                e = strip_casts(sd[e.name])
+        return e
 
     def base_off(n):
         # ORC_PTR_OFFSET(ptr, off) expands to (void*)(((unsigned char*)(ptr)) + (off))
         for x in n.walk():
             if x.k == "BinaryOperator" and x.op == "+":
-                return unparse(strip_casts(x.c[0])), unparse(strip_casts(x.c[1]))
+                return strip_casts(x.c[0]), strip_casts(x.c[1])
         return None, None
-    b1, o1 = base_off(stores["code->code"].c[1])
-    b2, o2 = base_off(stores["code->exec"].c[1])
-    rep.check(o1 == o2 and o1 == "chunk->offset" and b1 == "region->write_ptr" and b2 == "region->exec_ptr", "D2-SAME-OFFSET", where(al), "code/exec",
-              "code = write_ptr + chunk->offset, exec = exec_ptr + chunk->offset",
-              "the two views of the chunk use different bases/offsets: code = %s + %s, exec = %s + %s" % (b1, o1, b2, o2))
-    sd_region = [n for n in al.walk() if n.k == "BinaryOperator" and n.op == "=" and access_path(n.c[0]) == "region"]
-    rep.check(bool(sd_region) and unparse(sd_region[0].c[1]) == "chunk->region", "D2-SAME-OFFSET", where(al), "region-of-chunk",
-              "region is the chunk's own region", "pointers are taken from a region that is not chunk->region")
-    chunk_store = stores.get("code->chunk")
-    rep.check(chunk_store is not None and unparse(chunk_store.c[1]) == "chunk", "D2-SAME-OFFSET", where(al), "code->chunk", "code keeps the chunk it was placed in",
+    b1, o1 = base_off(stores["code"].c[1])
+    b2, o2 = base_off(stores["exec"].c[1])
+
+    def field_of(e, field):
+        """object text X if e is X->field / X.field (X with single-def locals resolved)."""
+        e = strip_casts(e)
+        if e is not None and e.k == "MemberExpr" and e.name == field:
+            return unparse(resolved(e.c[0]))
+        return None
+    r1, r2 = field_of(b1, "write_ptr"), field_of(b2, "exec_ptr")
+    x1, x2 = field_of(o1, "offset"), field_of(o2, "offset")
+    ok = r1 is not None and r1 == r2 and x1 is not None and x1 == x2 == CH and r1 == "%s->region" % CH
+    rep.check(ok, "D2-SAME-OFFSET", where(al), "code/exec",
+              "code = R->write_ptr + X->offset, exec = R->exec_ptr + X->offset with the same chunk X and R = X->region",
+              "the two views of the chunk use different bases/offsets: code = %s + %s, exec = %s + %s (regions %s / %s, chunks %s / %s)" %
+              (unparse(b1), unparse(o1), unparse(b2), unparse(o2), r1, r2, x1, x2))
+    rep.check(r1 == "%s->region" % CH, "D2-SAME-OFFSET", where(al), "region-of-chunk",
+              "region is the chunk's own region", "pointers are taken from a region that is not the chunk's region (%s)" % r1)
+    chunk_store = stores.get("chunk")
+    rep.check(chunk_store is not None and unparse(resolved(chunk_store.c[1])) == CH, "D2-SAME-OFFSET", where(al), "code->chunk", "code keeps the chunk it was placed in",
               "code->chunk is not the chunk whose offset was used")
-    used_set = [n for n in al.walk() if n.k == "BinaryOperator" and n.op == "=" and access_path(n.c[0]) == "chunk->used" and strip_casts(n.c[1]).v == 1]
+    used_set = [n for n in al.walk() if n.k == "BinaryOperator" and n.op == "=" and access_path(n.c[0]) == "%s->used" % CH and strip_casts(n.c[1]).v == 1]
     rep.check(bool(used_set), "D2-SAME-OFFSET", where(al), "chunk->used=TRUE", "chunk marked used before the lock is dropped", "allocated chunk is not marked used")
     fc = Facts(al)
+    # the request that was made to the free-chunk search: its argument is the size a split must use
+    req = [c for c in al.calls("orc_code_region_get_free_chunk")]
+    if len(req) != 1:
+        raise AnalysisBroken("orc_code_allocate_codemem: expected one orc_code_region_get_free_chunk call")
+    REQ = unparse(strip_casts(req[0].args()[0]))
     for c in al.calls("orc_code_chunk_split"):
         conds = [(unparse(x[0]), x[1]) for x in fc.conds(c) if x[0] != "switch"]
-        ok = ("(chunk->size > aligned_size)", True) in conds and unparse(c.args()[1]) == "aligned_size" and unparse(c.args()[0]) == "chunk"
+        bigger = ("(%s->size > %s)" % (CH, REQ), True) in conds or ("(%s < %s->size)" % (REQ, CH), True) in conds or \
+            ("(%s->size <= %s)" % (CH, REQ), False) in conds
+        ok = bigger and unparse(strip_casts(c.args()[1])) == REQ and unparse(strip_casts(c.args()[0])) == CH
         rep.check(ok, "D2-SAME-OFFSET", where(al), "split-guard", "split only a strictly larger chunk, by the aligned size",
                   "split called as %s under %s" % (unparse(c), conds), line=c.line)
     # the free-chunk search hands out only unused chunks that are large enough
     gf = db.func("orc_code_region_get_free_chunk", "orccodemem")
     rep.saw(gf)
     fcg = Facts(gf)
-    for r in [r for r in gf.walk() if r.k == "ReturnStmt" and r.c and access_path(r.c[0]) == "chunk"]:
+    GS = gf.params[0]["name"]
+    rets = [r for r in gf.walk() if r.k == "ReturnStmt" and r.c and r.c[0] is not None and strip_casts(r.c[0]).k == "DeclRefExpr" and "OrcCodeChunk" in (strip_casts(r.c[0]).get("ty") or "")]
+    if not rets:
+        raise AnalysisBroken("orc_code_region_get_free_chunk: no `return <chunk>`")
+    for r in rets:
+        X = strip_casts(r.c[0]).name
         conds = [(unparse(x[0]), x[1]) for x in fcg.conds(r) if x[0] != "switch"]
-        ok = ("chunk->used", False) in conds and ("(size <= chunk->size)", True) in conds
-        rep.check(ok, "D2-SAME-OFFSET", where(gf), "return-chunk", "only an unused chunk with size >= request is handed out",
+        unused = ("%s->used" % X, False) in conds or ("(%s->used == 0)" % X, True) in conds
+        fits = ("(%s <= %s->size)" % (GS, X), True) in conds or ("(%s->size >= %s)" % (X, GS), True) in conds or ("(%s->size < %s)" % (X, GS), False) in conds
+        rep.check(unused and fits, "D2-SAME-OFFSET", where(gf), "return-chunk", "only an unused chunk with size >= request is handed out",
                   "a chunk is returned without establishing !used and size <= chunk->size (facts %s)" % conds, line=r.line)
 
     # ---- D3 ------------------------------------------------------------------
@@ -178,10 +226,11 @@ def run(ctx):
     inter = [n for n in cp.walk() if n.k in ("BinaryOperator", "CompoundAssignOperator") and n.op in ("=", "+=", "-=") and access_path(n.c[0]) == size_arg
              and cp.dominates(acall[0], n) and cp.dominates(n, mcpy[0])]
     rep.check(not inter, "D3-BOUNDED-COPY", where(cp), "size-unchanged", "no store to the size between allocation and copy", "code_size is modified between allocation and copy")
-    # rounding never shrinks: aligned = (MAX(1,size) + a) & ~a
-    asz = [n for n in al.walk() if n.k == "VarDecl" and n.name == "aligned_size"]
-    txt = unparse(asz[0].c[0]) if asz and asz[0].c else ""
-    ok = "+ _orc_codemem_alignment) & ~_orc_codemem_alignment" in txt.replace("(~", "~").replace("))", ")") or ("& ~_orc_codemem_alignment" in txt.replace("(~", "~") and "+ _orc_codemem_alignment" in txt)
-    rep.check(ok, "D3-BOUNDED-COPY", where(al), "round-up", "aligned_size = (max(1,size) + a) & ~a  >= size", "aligned_size is no longer a round-up of size: `%s`" % txt)
-    cs = stores.get("code->code_size")
-    rep.check(cs is not None and unparse(cs.c[1]) == "size", "D3-BOUNDED-COPY", where(al), "code_size", "code_size records the requested size", "code->code_size is not the requested size")
+    # rounding never shrinks: the size requested from the free-chunk search is (max(1,size) + a) & ~a
+    rq = resolved(req[0].args()[0])
+    txt = unparse(rq)
+    t2 = txt.replace("(~", "~").replace(" ", "")
+    ok = "&~_orc_codemem_alignment" in t2 and "+_orc_codemem_alignment" in t2 and SIZE in txt
+    rep.check(ok, "D3-BOUNDED-COPY", where(al), "round-up", "aligned size = (max(1,size) + a) & ~a  >= size", "the size requested from the allocator is no longer a round-up of the requested size: `%s`" % txt)
+    cs = stores.get("code_size")
+    rep.check(cs is not None and unparse(strip_casts(cs.c[1])) == SIZE, "D3-BOUNDED-COPY", where(al), "code_size", "code_size records the requested size", "code->code_size is not the requested size")
